@@ -10,8 +10,13 @@
 //!   driver treats that like a failed unwinding assertion (bound too small), never as a pass.
 #![allow(clippy::all)]
 
-/// Capacity of every table.
-#[cfg(kani)]
+/// Capacity of every table: 4 under Kani (8 with `--cfg table_cap8`), 16 natively.
+/// Measured (Kani 0.68): four inserts + one lookup in a table of inline values cost 204 K SAT
+/// variables / 8 s at capacity 4 and 619 K / 79 s at capacity 8, so the small capacity is the
+/// default for harnesses; exceeding it is always reported, never hidden.
+#[cfg(all(kani, not(table_cap8)))]
+pub const CAP: usize = 4;
+#[cfg(all(kani, table_cap8))]
 pub const CAP: usize = 8;
 #[cfg(not(kani))]
 pub const CAP: usize = 16;
@@ -36,6 +41,31 @@ where
 #[cold]
 #[inline(never)]
 pub(crate) fn overflow() -> ! { panic!("capacity of the table model exceeded") }
+
+/// Runs the block `CAP` times.  Under Kani the block is *textually repeated* instead of looped,
+/// so that the model's internal scans (key search, clone, drop, retain, set algebra) do not
+/// depend on the harness's loop-unwinding bound; each copy is guarded by the live length.
+/// The block must not `break`/`continue`; `return` is fine.
+#[cfg(all(kani, not(table_cap8)))]
+macro_rules! repeat_cap {
+   ($b:block) => {{
+      const _: () = assert!($crate::CAP == 4);
+      $b $b $b $b
+   }};
+}
+#[cfg(all(kani, table_cap8))]
+macro_rules! repeat_cap {
+   ($b:block) => {{
+      const _: () = assert!($crate::CAP == 8);
+      $b $b $b $b $b $b $b $b
+   }};
+}
+#[cfg(not(kani))]
+macro_rules! repeat_cap {
+   ($b:block) => {{
+      for _ in 0..$crate::CAP $b
+   }};
+}
 
 pub mod hash_map;
 pub mod hash_set;
